@@ -153,7 +153,8 @@ func overlayFromPatch(repo, patch string) (map[string][]byte, []string, error) {
 	var files []string
 	for _, line := range strings.Split(string(bz), "\n") {
 		if strings.HasPrefix(line, "+++ b/") {
-			files = append(files, strings.TrimSpace(strings.TrimPrefix(line, "+++ b/")))
+			name, _, _ := strings.Cut(strings.TrimPrefix(line, "+++ b/"), "\t") // plain diff -u appends a timestamp
+			files = append(files, strings.TrimSpace(name))
 		}
 	}
 	if len(files) == 0 {
